@@ -26,7 +26,11 @@ RECURSIVE SortInts(_), SortPairs(_)
 SortInts(S) == IF S = {} THEN <<>> ELSE LET m == CHOOSE x \in S : \A y \in S : x <= y IN <<m>> \o SortInts(S \ {m})
 SortPairs(S) == IF S = {} THEN <<>> ELSE LET m == CHOOSE p \in S : \A q \in S : p[1] < q[1] \/ (p[1] = q[1] /\ p[2] <= q[2])
                                          IN <<m[1], m[2]>> \o SortPairs(S \ {m})
-GraphListing(T) == SortInts(GraphNodes(T)) \o SortPairs(GraphEdges(T))
+\* the operand list a function node carries: its inputs IN ORDER (x / exp(x) and exp(x) / x have the same edges); terms ascending by id
+RECURSIVE OperandRows(_, _)
+OperandRows(T, ids) == IF ids = <<>> THEN <<>> ELSE LET t == T[CHOOSE m \in 1..Len(T) : T[m].id = Head(ids)]
+                                                   IN <<t.id, Len(t.args)>> \o t.args \o OperandRows(T, Tail(ids))
+GraphListing(T) == SortInts(GraphNodes(T)) \o SortPairs(GraphEdges(T)) \o OperandRows(T, SortInts(TermIds(T)))
 
 \* ---- merging, as the extraction does it: the graph of a term = the union of the graphs of its inputs plus the term.
 \* Law checked by TLC (MC_ComputeGraph): the union of sub-graphs (nodes AND edges of an input that is already present
